@@ -1,17 +1,181 @@
 package main
 
 import (
+	"flag"
 	"fmt"
-	"golang.org/x/tools/go/packages"
+	"os"
+	"runtime"
+	"sort"
+	"strings"
+
 	"golang.org/x/tools/go/ssa"
-	"golang.org/x/tools/go/ssa/ssautil"
 )
 
+// FuncResult is the outcome of generating VCs for one function.
+type FuncResult struct {
+	Name        string
+	Con         *Contract
+	Ex          *Exec
+	Obligs      []*Oblig
+	Unsupported []string
+	Notes       []string
+	Pre         string
+	PreExact    string
+}
+
+func (g *Gen) newExec(fn *ssa.Function, con *Contract) *Exec {
+	e := newEmitter(g)
+	env := &Env{e: e, g: g}
+	if con != nil && con.Flags["wrap64"] {
+		env.wrap64 = true
+	}
+	return &Exec{g: g, e: e, env: env, fn: fn, con: con, vals: map[ssa.Value]Val{}, reach: map[*ssa.BasicBlock]string{},
+		exit: map[*ssa.BasicBlock]*State{}, edge: map[[2]int]string{}, locals: map[*ssa.Alloc]string{}, callN: map[string]int{}, safeN: map[string]int{}}
+}
+
+func (g *Gen) verifyFunc(con *Contract) *FuncResult {
+	fr := &FuncResult{Name: con.Func, Con: con}
+	if len(con.Errors) > 0 {
+		fr.Unsupported = append(fr.Unsupported, con.Errors...)
+		return fr
+	}
+	if con.Fn == nil {
+		fr.Unsupported = append(fr.Unsupported, "no SSA function")
+		return fr
+	}
+	ex := g.newExec(con.Fn, con)
+	fr.Ex = ex
+	func() {
+		defer func() {
+			if r := recover(); r != nil {
+				buf := make([]byte, 4096)
+				n := runtime.Stack(buf, false)
+				ex.unsup("engine panic: %v\n%s", r, buf[:n])
+			}
+		}()
+		ex.run()
+	}()
+	fr.Name = ex.fnName()
+	fr.Obligs = ex.obligs
+	fr.Unsupported = ex.unsupported
+	fr.Notes = ex.e.notes
+	fr.Pre = ex.e.preamble(nil, false)
+	fr.PreExact = ex.e.preamble(nil, true)
+	return fr
+}
+
 func main() {
-	cfg := &packages.Config{Mode: packages.LoadAllSyntax, Dir: "/repo", BuildFlags: []string{"-tags=verif"}}
-	pkgs, err := packages.Load(cfg, ".")
-	if err != nil { panic(err) }
-	prog, sp := ssautil.AllPackages(pkgs, ssa.InstantiateGenerics|ssa.GlobalDebug)
-	prog.Build()
-	fmt.Println(len(sp), sp[0].Pkg.Path())
+	initEnv()
+	if len(os.Args) < 2 {
+		fmt.Fprintln(os.Stderr, "usage: gvc check|verify|replay ...")
+		os.Exit(2)
+	}
+	switch os.Args[1] {
+	case "verify":
+		cmdVerify(os.Args[2:])
+	case "check":
+		cmdCheck(os.Args[2:])
+	case "replay":
+		cmdReplay(os.Args[2:])
+	case "overlay":
+		g, err := loadAll("/repo")
+		if g != nil {
+			for d, s := range g.overlaySrc {
+				fmt.Printf("// ---- %s\n%s\n", d, s)
+			}
+		}
+		if err != nil {
+			fmt.Fprintln(os.Stderr, err)
+			os.Exit(2)
+		}
+	default:
+		fmt.Fprintln(os.Stderr, "unknown command", os.Args[1])
+		os.Exit(2)
+	}
+}
+
+func cmdVerify(args []string) {
+	fs := flag.NewFlagSet("verify", flag.ExitOnError)
+	repo := fs.String("repo", "/repo", "repository root")
+	fnPat := fs.String("func", "", "substring of function names to verify (comma separated); empty = all")
+	timeout := fs.Int("timeout", 10, "per-obligation timeout (s)")
+	dump := fs.String("dump", "", "directory to keep SMT files")
+	all := fs.Bool("all-solvers", false, "run every solver")
+	verbose := fs.Bool("v", false, "verbose")
+	fs.Parse(args)
+	g, err := loadAll(*repo)
+	if err != nil {
+		fmt.Fprintln(os.Stderr, "CANNOT-CHECK:", err)
+		os.Exit(2)
+	}
+	for _, er := range g.cs.Errors {
+		fmt.Println("contract error:", er)
+	}
+	var frs []*FuncResult
+	for _, c := range g.cs.All {
+		if c.IsIface || c.Flags["trusted"] || c.Flags["pure"] || c.Flags["uninterpreted"] {
+			continue
+		}
+		if *fnPat != "" {
+			ok := false
+			for _, p := range strings.Split(*fnPat, ",") {
+				if strings.Contains(c.Func, p) {
+					ok = true
+				}
+			}
+			if !ok {
+				continue
+			}
+		}
+		frs = append(frs, g.verifyFunc(c))
+	}
+	dir := *dump
+	if dir == "" {
+		dir, _ = os.MkdirTemp("", "gvc-smt-")
+		defer os.RemoveAll(dir)
+	} else {
+		os.MkdirAll(dir, 0o755)
+	}
+	var obs []*Oblig
+	pres := map[*Exec][2]string{}
+	for _, fr := range frs {
+		if fr.Ex != nil {
+			pres[fr.Ex] = [2]string{fr.Pre, fr.PreExact}
+		}
+		obs = append(obs, fr.Obligs...)
+	}
+	solveAll(obs, pres, *timeout, 16, *all, dir)
+	bad := 0
+	for _, fr := range frs {
+		fmt.Printf("== %s: %d obligations\n", fr.Name, len(fr.Obligs))
+		for _, u := range fr.Unsupported {
+			fmt.Printf("   UNSUPPORTED: %s\n", u)
+			bad++
+		}
+		if *verbose {
+			for _, n := range fr.Notes {
+				fmt.Printf("   note: %s\n", n)
+			}
+		}
+		sort.SliceStable(fr.Obligs, func(i, j int) bool { return false })
+		for _, o := range fr.Obligs {
+			st := o.Res.Status
+			if st != "unsat" {
+				bad++
+			}
+			fmt.Printf("   %-8s %-7s %5.2fs  %s  (%s)\n", st, o.Res.Solver, o.Res.TimeS, o.Name, o.Pos)
+			if st == "sat" && o.Res.Model != "" {
+				fmt.Printf("      model: %s\n", strings.ReplaceAll(o.Res.Model, "\n", " "))
+			}
+			if st == "error" {
+				fmt.Printf("      output: %s\n", strings.TrimSpace(o.Res.Output))
+			}
+			if *verbose && st != "unsat" {
+				fmt.Printf("      tried: %v\n", o.Res.Tried)
+			}
+		}
+	}
+	if bad > 0 {
+		os.Exit(1)
+	}
 }
